@@ -36,6 +36,8 @@ def is_set_expr(e, setattrs, localsets=()):
         name = f.id if isinstance(f, ast.Name) else (f.attr if isinstance(f, ast.Attribute) else None)
         if name in SET_RETURNING_CALLS:
             return True
+        if name == "sorted" and e.args and any(k.arg == "key" for k in e.keywords) and is_set_expr(e.args[0], setattrs, localsets):
+            return True       # stable sort with a key: elements with equal keys keep the unordered source's order - still not a determined order
         if name == "getattr" and len(e.args) >= 2 and isinstance(e.args[1], ast.Constant) and e.args[1].value in setattrs:
             return True
         if name in ("union", "intersection", "difference", "symmetric_difference"):
@@ -56,7 +58,9 @@ def is_set_expr(e, setattrs, localsets=()):
 
 def is_sorted_wrapped(e):
     if isinstance(e, ast.Call) and isinstance(e.func, ast.Name) and e.func.id == "sorted":
-        return True
+        # sorted() is stable: with a key function, elements with equal keys keep the order of the (unordered) source.  Only the natural order of the
+        # elements (paths, strings, nodes ordered by their injective ident: C12's __lt__ contracts) is accepted as a total order.
+        return not any(k.arg == "key" for k in e.keywords)
     if isinstance(e, ast.Call) and isinstance(e.func, ast.Name) and e.func.id == "ProgressBar" and len(e.args) >= 2:
         return is_sorted_wrapped(e.args[1])
     if isinstance(e, ast.NamedExpr):
